@@ -1,0 +1,69 @@
+//! Read-only observation hooks for external verification harnesses
+//!
+//! Compiled only with the `verif_hooks` feature. Nothing here changes any state; the
+//! functions just expose derived data which has no public reader otherwise.
+
+use crate::bitboard::Bitboard;
+use crate::board::Board;
+use crate::types::{Color, Coord};
+use crate::{attack, between};
+
+/// Returns the stored combined occupancy bitboard of `b`
+#[inline]
+pub fn board_all(b: &Board) -> Bitboard {
+    b.all
+}
+
+/// King attack table lookup
+#[inline]
+pub fn attack_king(c: Coord) -> Bitboard {
+    attack::king(c)
+}
+
+/// Knight attack table lookup
+#[inline]
+pub fn attack_knight(c: Coord) -> Bitboard {
+    attack::knight(c)
+}
+
+/// Pawn attack table lookup
+#[inline]
+pub fn attack_pawn(color: Color, c: Coord) -> Bitboard {
+    attack::pawn(color, c)
+}
+
+/// Rook magic table lookup
+#[inline]
+pub fn attack_rook(c: Coord, occupied: Bitboard) -> Bitboard {
+    attack::rook(c, occupied)
+}
+
+/// Bishop magic table lookup
+#[inline]
+pub fn attack_bishop(c: Coord, occupied: Bitboard) -> Bitboard {
+    attack::bishop(c, occupied)
+}
+
+/// `between::bishop_strict`
+#[inline]
+pub fn between_bishop_strict(src: Coord, dst: Coord) -> Bitboard {
+    between::bishop_strict(src, dst)
+}
+
+/// `between::rook_strict`
+#[inline]
+pub fn between_rook_strict(src: Coord, dst: Coord) -> Bitboard {
+    between::rook_strict(src, dst)
+}
+
+/// `between::is_bishop_valid`
+#[inline]
+pub fn between_is_bishop_valid(src: Coord, dst: Coord) -> bool {
+    between::is_bishop_valid(src, dst)
+}
+
+/// `between::is_rook_valid`
+#[inline]
+pub fn between_is_rook_valid(src: Coord, dst: Coord) -> bool {
+    between::is_rook_valid(src, dst)
+}
